@@ -197,6 +197,7 @@ def execute(case, ctx=None):
             exc = apply_op(conv, op)
         outcome, idx = model.add_record(r, case_sensitive=op["cs"], merge=op["merge"])
         where = f"step {step} {op['via']}({op['rec']}, cs={op['cs']}, merge={op['merge']})"
+        conv._c05_last_rejected = exc is not None
         if ctx is not None:
             ctx.count("steps_replayed")
             if last:
@@ -303,6 +304,10 @@ def run_unit(unit, ctx):
                 continue
             ctx.count("validated")
             h = hash(cn)
+            if hist.get("via") and getattr(conv, "_c05_last_rejected", False):
+                # in the loader phase a state also remembers the call that was just rejected: a retry of the same Record object
+                # with other flags is a different future if anything about the rejected call were kept
+                h = hash((cn, repr(op)))
             ctx.state(h)
             new_states.append((h, case))
             # anti-vacuity bookkeeping
